@@ -1,7 +1,7 @@
 (* C19 specification: what [mdspan.extents], [mdspan.layout.left/right/stride], [linalg.transp],
    [mdspan.sub.extents] and [span.sub] say, on plain lists of mathematical integers.
    Nothing here mentions dynamic arrays, size_t, casts or fold expressions. *)
-From Tetl Require Import Lib.Base.
+From Tetl Require Import Lib.Base C19.Slices.
 Local Open Scope Z_scope.
 
 (* size of the multidimensional index space = required_span_size of the contiguous layouts *)
@@ -76,6 +76,30 @@ Fixpoint keep_full {A} (sl : list (option Z)) (l : list A) : list A :=
   match sl, l with
   | None :: sr, x :: r => x :: keep_full sr r
   | Some _ :: sr, _ :: r => keep_full sr r
+  | _, _ => []
+  end.
+
+(* [mdspan.sub.extents] with full_extent / index / (first, last) slices: an index drops the dimension,
+   full_extent keeps extent and static-ness, a pair of run-time values keeps last - first elements with a
+   dynamic extent.  Precondition of the standard: 0 <= first <= last <= extent (index: 0 <= k < extent). *)
+Definition slice_ok (s : slice) (x : Z) : Prop :=
+  match s with
+  | SlFull => True
+  | SlIndex k => 0 <= k < x
+  | SlPair a b => 0 <= a /\ a <= b /\ b <= x
+  end.
+Fixpoint sub_shape (sl : list slice) (xs : list Z) : list Z :=
+  match sl, xs with
+  | SlFull :: sr, x :: r => x :: sub_shape sr r
+  | SlIndex _ :: sr, _ :: r => sub_shape sr r
+  | SlPair a b :: sr, _ :: r => (b - a) :: sub_shape sr r
+  | _, _ => []
+  end.
+Fixpoint sub_pattern (sl : list slice) (p : list (option Z)) : list (option Z) :=
+  match sl, p with
+  | SlFull :: sr, x :: r => x :: sub_pattern sr r
+  | SlIndex _ :: sr, _ :: r => sub_pattern sr r
+  | SlPair _ _ :: sr, _ :: r => None :: sub_pattern sr r
   | _, _ => []
   end.
 
